@@ -271,6 +271,9 @@ fn run_cli_inner(req: &Req) -> J {
 pub fn worker() {
     let mut out = response_channel();
     quiet_panics();
+    // "reuse": true runs the script from ONE buffer that keeps its address from request to request,
+    // as the playground's entry point sees it (same-length scripts at the same address)
+    let mut reused = String::with_capacity(4 << 20);
     for line in std::io::stdin().lock().lines() {
         let Ok(line) = line else { break };
         if line.trim().is_empty() {
@@ -279,6 +282,13 @@ pub fn worker() {
         let j: J = serde_json::from_str(&line).expect("bad request");
         let id = j["id"].clone();
         let src = j["src"].as_str().unwrap_or("");
+        let src = if j["reuse"].as_bool().unwrap_or(false) && src.len() <= reused.capacity() {
+            reused.clear();
+            reused.push_str(src);
+            reused.as_str()
+        } else {
+            src
+        };
         let req = Req {
             caps: caps_from(&j["caps"]),
             src,
